@@ -20,6 +20,7 @@
 package main
 
 import (
+	"bytes"
 	"crypto"
 	"crypto/ecdsa"
 	"crypto/ed25519"
@@ -269,10 +270,10 @@ func genLink(r *lib.Rng) intoto.Link {
 	l.Materials = map[string]intoto.HashObj{}
 	l.Products = map[string]intoto.HashObj{}
 	for i := 0; i < r.Range(1, 2); i++ {
-		l.Materials["src/"+r.Str("abc", 1, 3)+".c"] = intoto.HashObj{"sha256": r.Str("0123456789abcdef", 8, 8)}
+		l.Materials["src/"+r.Str("abc", 1, 3)+".c"] = intoto.HashObj{"sha256": r.Str("0123456789abcdefABCDEF", 8, 8)}
 	}
 	for i := 0; i < r.Range(1, 2); i++ {
-		l.Products["out/"+r.Str("xyz", 1, 3)] = intoto.HashObj{"sha256": r.Str("0123456789abcdef", 8, 8), "sha512": r.Str("0123456789abcdef", 8, 8)}
+		l.Products["out/"+r.Str("xyz", 1, 3)] = intoto.HashObj{"sha256": r.Str("0123456789abcdefABCDEF", 8, 8), "sha512": r.Str("0123456789abcdef", 8, 8)}
 	}
 	l.ByProducts = map[string]interface{}{"return-value": float64(r.Range(0, 3)), "stdout": txt(), "stderr": txt()}
 	l.Command = []string{"cc", "-o", txt()}
@@ -379,6 +380,84 @@ func layoutVariants(l intoto.Layout) []variant {
 		x.RootCas[k.KeyID] = k
 	})
 	return out
+}
+
+// payloads with values a "normalising" loader might touch: the content that was signed
+// must come back from Dump;LoadMetadata byte for byte
+var verbatimLinkKinds = []string{"digest-upper", "digest-mixed", "hashalg-upper", "spaces", "crlf", "unicode-nfc-nfd", "path-unclean", "html-chars"}
+var verbatimLayoutKinds = []string{"keyid-upper", "spaces", "crlf", "unicode-nfc-nfd", "html-chars", "rule-path-unclean"}
+
+func verbatimLink(r *lib.Rng, kind string) intoto.Link {
+	l := genLink(r)
+	switch kind {
+	case "digest-upper":
+		l.Materials = map[string]intoto.HashObj{"src/a.c": {"sha256": "ABCDEF0123456789ABCDEF0123456789ABCDEF0123456789ABCDEF0123456789"}}
+		l.Products = map[string]intoto.HashObj{"out/a": {"sha256": "0F1E2D3C4B5A69780F1E2D3C4B5A69780F1E2D3C4B5A69780F1E2D3C4B5A6978", "sha512": "FF00"}}
+	case "digest-mixed":
+		l.Materials = map[string]intoto.HashObj{"src/a.c": {"sha256": "aBcDeF0123456789abcdef0123456789ABCDEF0123456789aBcDeF0123456789"}}
+		l.Products = map[string]intoto.HashObj{"out/a": {"sha256": "0f1E2d3C4b5A6978"}, "out/b": {"sha256": "0f1e2d3c4b5a6978"}, "out/c": {"sha256": "0F1E2D3C4B5A6978"}}
+	case "hashalg-upper":
+		l.Materials = map[string]intoto.HashObj{"src/a.c": {"SHA256": "abcdef01", "Sha512": "0123"}}
+	case "spaces":
+		l.Name = " step name "
+		l.Materials = map[string]intoto.HashObj{" src/a.c ": {"sha256": " abcdef01 "}, "src/a.c": {"sha256": "abcdef01"}}
+		l.Command = []string{" cc", "-o ", "", " "}
+		l.ByProducts["stdout"] = "  leading and trailing  \t"
+		l.Environment["workdir"] = "/tmp/ "
+	case "crlf":
+		l.ByProducts["stdout"] = "line1\r\nline2\r\n"
+		l.ByProducts["stderr"] = "a\rb\nc\n"
+		l.Command = []string{"printf", "a\r\nb"}
+	case "unicode-nfc-nfd":
+		l.Name = "caf\u00e9-cafe\u0301"
+		l.Materials = map[string]intoto.HashObj{"src/\u00e9.c": {"sha256": "01"}, "src/e\u0301.c": {"sha256": "02"}}
+		l.ByProducts["stdout"] = "\u212b \u00c5 A\u030a \ufb01 \u2028"
+	case "path-unclean":
+		l.Materials = map[string]intoto.HashObj{"./src//a.c": {"sha256": "01"}, "src/../src/a.c": {"sha256": "02"}, "src/a.c/": {"sha256": "03"}}
+		l.Products = map[string]intoto.HashObj{"out\\a": {"sha256": "04"}, "/abs/out": {"sha256": "05"}}
+		l.Environment["workdir"] = "/tmp/../tmp/./x/"
+	case "html-chars":
+		l.Name = "a<b>&c"
+		l.Command = []string{"sh", "-c", "a && b > c < d", "\u2028\u2029"}
+		l.ByProducts["stdout"] = "<script>&amp;</script> \"q\" \\ /"
+	default:
+		panic("verbatimLink " + kind)
+	}
+	return roundTrip(l)
+}
+
+func verbatimLayout(r *lib.Rng, kind string) intoto.Layout {
+	l := genLayout(r)
+	switch kind {
+	case "keyid-upper":
+		k := pool["ed2"].Pub
+		k.KeyID = strings.ToUpper(k.KeyID)
+		k2 := pool["ed1"].Pub
+		l.Keys = map[string]intoto.Key{k.KeyID: k, strings.ToUpper(k2.KeyID[:32]) + k2.KeyID[32:]: k2}
+		l.Steps[0].PubKeys = []string{k.KeyID, strings.ToUpper(k2.KeyID[:32]) + k2.KeyID[32:], k2.KeyID}
+	case "spaces":
+		l.Readme = "  readme with spaces  "
+		l.Steps[0].Name = " build "
+		l.Steps[0].ExpectedCommand = []string{" make ", "", " "}
+		l.Steps[0].ExpectedMaterials = [][]string{{"ALLOW", " src/* "}, {"allow", "x"}}
+		l.Inspect[0].Run = []string{"sh", "-c", " true "}
+	case "crlf":
+		l.Readme = "line1\r\nline2\r\n\n"
+		l.Inspect[0].Run = []string{"sh", "-c", "a\r\nb"}
+	case "unicode-nfc-nfd":
+		l.Readme = "caf\u00e9 cafe\u0301 \u212b \u00c5 A\u030a"
+		l.Steps[0].Name = "\u00e9"
+		l.Inspect[0].Name = "e\u0301"
+	case "html-chars":
+		l.Readme = "<b>&amp;</b> a && b \u2028"
+		l.Steps[0].ExpectedCommand = []string{"sh", "-c", "a < b > c & d"}
+	case "rule-path-unclean":
+		l.Steps[0].ExpectedMaterials = [][]string{{"MATCH", "./src//*", "WITH", "PRODUCTS", "IN", "out/../out/", "FROM", "build"}}
+		l.Steps[0].ExpectedProducts = [][]string{{"CREATE", "out//a"}, {"DISALLOW", "*"}}
+	default:
+		panic("verbatimLayout " + kind)
+	}
+	return roundTrip(l)
 }
 
 func decodePayload(ps payloadSpec) any {
@@ -578,6 +657,24 @@ func encodeSig(wrapper string, raw []byte) string {
 	return base64.StdEncoding.EncodeToString(raw)
 }
 
+// canonical form (securesystemslib, not in_toto) of a Go value / of JSON bytes parsed generically
+func canonOfValue(v any) []byte {
+	b, err := cjson.EncodeCanonical(v)
+	if err != nil {
+		return nil
+	}
+	return b
+}
+func canonOfBytes(body []byte) []byte {
+	var g any
+	dec := json.NewDecoder(bytes.NewReader(body))
+	dec.UseNumber()
+	if err := dec.Decode(&g); err != nil {
+		return nil
+	}
+	return canonOfValue(g)
+}
+
 func status(err error) string {
 	if err != nil {
 		return "F"
@@ -592,6 +689,8 @@ type runResult struct {
 	Oracle  string
 	Coq     string
 	LibSigned, LibValid int // signatures made by the library with sound keys / of those valid under crypto/* directly
+	EnvSteps, EnvEqual  int // DSSE: steps at which GetPayload() was compared with the content decoded from the signed payload bytes
+	RtSteps, RtEqual    int // Dump;LoadMetadata operations / of those that left the content of GetPayload() as it was
 	Klass   string
 	Trivial bool
 	Notes   []string
@@ -690,6 +789,7 @@ func runCase(in caseInput) (res runResult) {
 	var coqOps []string
 	var implSteps, oracleSteps []string
 	libSigned, libValid := 0, 0
+	envSteps, envEqual, rtSteps, rtEqual := 0, 0, 0, 0
 
 	md, err := freshObject(w, payloads[0])
 	if err != nil {
@@ -712,6 +812,13 @@ func runCase(in caseInput) (res runResult) {
 		}
 		cur := prescribedBytes(v, md)
 		allMsgs[string(cur)] = true
+		if w == "dsse" {
+			// the object handed out by GetPayload() must be the content of the bytes the signatures cover
+			envSteps++
+			if a, b := canonOfBytes(payloadBody(v)), canonOfValue(md.GetPayload()); a != nil && bytes.Equal(a, b) {
+				envEqual++
+			}
+		}
 		var rawsNow [][]byte
 		for _, s := range v.Sigs {
 			if raw, ok := decodeSig(w, s.Sig); ok {
@@ -806,15 +913,20 @@ func runCase(in caseInput) (res runResult) {
 			// the real thing: Dump to a file and LoadMetadata it
 			p := tmpFile()
 			var nmd intoto.Metadata
+			before := canonOfValue(md.GetPayload())
 			lerr := md.Dump(p)
 			if lerr == nil {
 				nmd, lerr = intoto.LoadMetadata(p)
 			}
 			os.Remove(p)
+			rtSteps++
 			if lerr != nil {
 				st = "F"
 			} else {
 				md = nmd
+				if before != nil && bytes.Equal(before, canonOfValue(md.GetPayload())) {
+					rtEqual++
+				}
 			}
 			coqOps = append(coqOps, "XDumpLoad")
 		case "setpayload":
@@ -1065,6 +1177,7 @@ func runCase(in caseInput) (res runResult) {
 	res.Oracle = strings.Join(oracleSteps, "|") + "|"
 	res.Coq = sb.String()
 	res.LibSigned, res.LibValid = libSigned, libValid
+	res.EnvSteps, res.EnvEqual, res.RtSteps, res.RtEqual = envSteps, envEqual, rtSteps, rtEqual
 	res.Trivial = libSigned == 0
 	if w == "dsse" && maxSigners >= 2 {
 		res.Klass = "F6-dsse-multi-sign"
@@ -1369,6 +1482,26 @@ func systematic(r *lib.Rng, all bool) []struct {
 				})
 			}
 		}
+		// content that must survive Dump;LoadMetadata verbatim: signed through the library and
+		// signed independently (crypto/* over the canonical bytes of the ORIGINAL content)
+		verb := func(kind, vk string, p any) {
+			each(func(names []string) {
+				emit(w, kind, "verbatim-"+vk, names, func(in *caseInput) {
+					in.Payloads = []payloadSpec{{Kind: kind, Field: "verbatim-" + vk, JSON: lib.MustJSON(p)}}
+					in.Ops = []opSpec{{Kind: "sign", Key: 0}, {Kind: "dumpload"}, {Kind: "sign", Key: 1}, {Kind: "dumpload"}}
+				})
+				emit(w, kind, "verbatim-foreign-"+vk, names, func(in *caseInput) {
+					in.Payloads = []payloadSpec{{Kind: kind, Field: "verbatim-" + vk, JSON: lib.MustJSON(p)}}
+					in.Ops = []opSpec{{Kind: "addsig", Key: len(in.Cast) - 1, Mut: "independent"}, {Kind: "dumpload"}, {Kind: "sign", Key: 0}, {Kind: "dumpload"}}
+				})
+			})
+		}
+		for _, vk := range verbatimLinkKinds {
+			verb("link", vk, verbatimLink(r.Fork(), vk))
+		}
+		for _, vk := range verbatimLayoutKinds {
+			verb("layout", vk, verbatimLayout(r.Fork(), vk))
+		}
 		for _, kind := range []string{"link", "layout"} {
 			kind := kind
 			each(func(names []string) {
@@ -1448,8 +1581,16 @@ func writeKeys(path string) {
 	}
 }
 
-func interopText(valid, made int) string {
-	return fmt.Sprintf("signatures made by the library that verify with crypto/* directly over the prescribed bytes: %d of %d", valid, made)
+func interopText(valid, made, envEq, envSteps, rtEq, rtSteps int) string {
+	return fmt.Sprintf("signatures made by the library that verify with crypto/* directly over the prescribed bytes: %d of %d; "+
+		"envelope steps at which GetPayload() is the content of the signed payload bytes: %d of %d; "+
+		"Dump;LoadMetadata operations that left the content unchanged: %d of %d", valid, made, envEq, envSteps, rtEq, rtSteps)
+}
+func (r runResult) interopImpl() string {
+	return interopText(r.LibValid, r.LibSigned, r.EnvEqual, r.EnvSteps, r.RtEqual, r.RtSteps)
+}
+func (r runResult) interopOracle() string {
+	return interopText(r.LibSigned, r.LibSigned, r.EnvSteps, r.EnvSteps, r.RtSteps, r.RtSteps)
 }
 
 func put(w *lib.Writer, in caseInput, klass string) {
@@ -1459,10 +1600,9 @@ func put(w *lib.Writer, in caseInput, klass string) {
 	}
 	inp := lib.MustJSON(in)
 	w.Put(lib.Case{Klass: klass, Input: inp, Impl: res.Impl, Oracle: res.Oracle, CoqModel: res.Coq, Trivial: res.Trivial})
-	if !res.Trivial {
-		// interop library -> independent verifier
-		w.Put(lib.Case{Klass: "interop-" + klass, Input: inp, Impl: interopText(res.LibValid, res.LibSigned),
-			Oracle: interopText(res.LibSigned, res.LibSigned), Trivial: true})
+	if res.LibSigned+res.EnvSteps+res.RtSteps > 0 {
+		// interoperability / content-preservation line (no model: plain demands of the property)
+		w.Put(lib.Case{Klass: "interop-" + klass, Input: inp, Impl: res.interopImpl(), Oracle: res.interopOracle(), Trivial: true})
 	}
 }
 
@@ -1522,7 +1662,8 @@ func main() {
 		fmt.Println("format: <status of the operation>:<VerifySignature under cast 0..n> per step, step 0 = fresh object")
 		fmt.Println("impl:   " + res.Impl)
 		fmt.Println("oracle: " + res.Oracle)
-		fmt.Println(interopText(res.LibValid, res.LibSigned))
+		fmt.Println("impl:   " + res.interopImpl())
+		fmt.Println("oracle: " + res.interopOracle())
 		for _, n := range res.Notes {
 			fmt.Println("note: " + n)
 		}
